@@ -6,6 +6,7 @@ import PromqlVerif.Proofs.Den
 import PromqlVerif.Proofs.Grid
 import PromqlVerif.Proofs.IterProof
 import PromqlVerif.Proofs.SelOpProof
+import PromqlVerif.Proofs.ShardProof
 namespace PromqlVerif.C02
 open PromqlVerif Val
 
@@ -117,6 +118,28 @@ theorem merge_any_order {α β : Type} (cs : List (List α × List (Nat × β)))
     (merged : List (List (Nat × β))) (hp : merged.Perm (coalesceVecs cs)) :
     (denote (coalesceSeries cs) merged.flatten).Perm ((cs.map fun c => denote c.1 c.2).flatten) :=
   coalesce_any_order cs h merged hp
+
+/-- **sharding is transparent, as the operators are written**: the matching series split into
+shards in any way (any shard count, empty shards), each shard's `vectorSelector` producing the
+step vectors of one batch of reference times (`SelOp.lean`, proved equal to the per-step selection
+by `selector_operator_stream`), and the shards' goroutines reaching the coalesce operator in any
+order `arr` (`Coalesce.lean`): `Next` succeeds, the merged batch carries the step timestamps,
+and every step vector is - up to the order of its samples - the selection over all the series at
+that step, with IDs indexing the concatenated series list. -/
+theorem sharded_selector_batch (lookback : Int) (stamp : Int → Int) (refs : List Int) (hrefs : refs ≠ [])
+    (shards : List (List (List (Sample V)))) (hsh : shards ≠ [])
+    (arr : List (Nat × List (List (Sample V))))
+    (harr : arr.Perm ((offsetsOf (shards.map List.length)).zip shards)) :
+    ∃ out, coalesceNext ((arr.map (shardArrival (fun s r => (selectSample lookback r s).map (·.2)) stamp refs)).map
+        fun a => (a.1, some a.2)) = .ok (some out) ∧
+      All2 (fun (sv : SV V) (r : Int) => sv.1 = stamp r ∧ sv.2.Perm (selectStep lookback shards.flatten r)) out refs := by
+  rw [selectStep_eq_perStep]
+  exact sharded_batch _ stamp refs hrefs shards hsh arr harr
+
+/-- two shards arriving in reverse order -/
+example : ∃ out, coalesceNext (([(1, [[⟨95, .num (2 : Int)⟩]]), (0, [[⟨50, .num 1⟩]])].map
+      (shardArrival (fun s r => (selectSample 100 r s).map (·.2)) id [100])).map fun a => (a.1, some a.2)) = .ok (some out) ∧
+    out = [(100, [(1, 2), (0, 1)])] := ⟨_, rfl, by decide⟩
 
 /-- a concrete series with samples inside and outside the lookback range -/
 example : selectSample 10 100 [⟨50, .num (1 : Int)⟩, ⟨95, .num 2⟩, ⟨120, .num 3⟩] = some (95, 2) := by decide
